@@ -31,7 +31,9 @@ from harness.common import ddmin
 RULE = ("scenarios = 2-3 thread programs over {get same/different URI, tick + modify + get, failing compile, "
         "file appearing in an earlier directory, filesystem_checks off, LRU collection_size 1-2, render with "
         "distinct contexts (cached def => first use of Template.cache), adjust_uri on a plain / bounded lookup, "
-        "renders with <%include> on a bounded lookup (oracle only)} x every schedule at the model's scheduling "
+        "renders with <%include> on a bounded lookup (oracle only), first cached calls of a def with its own cache_region "
+        "on a region-dependent back end with a point at every line of mako/cache.py (oracle only, every stop line of "
+        "one thread x the other running to completion)} x every schedule at the model's scheduling "
         "points (collection read/write/pop, os.stat, os.path.isfile, mutex acquire/release, Template construction, "
         "LRU len/del, memoized_property miss, _uri_cache test/read/store), enumerated in order of increasing "
         "preemption count until the tier's time share of the scenario is used up; plus PCT "
@@ -51,7 +53,7 @@ TRUSTED_EXTRA = [
     "C16: harness/sched.py (token-passing scheduler, instrumented lock / collection / os probes / Template / "
     "memoized_property); preemption inside a modelled atomic step is only sampled (line-level PCT schedules)",
 ]
-REGEN = ["Lookup"]
+REGEN = ["Lookup", "Conc"]
 
 SITE_F11 = "second-chance-read-serves-stale"
 SITE_URI = "adjust-uri-keyerror-under-lru"
@@ -128,6 +130,8 @@ def scenarios(tier):
 def content(u, ver, good, kind):
     if not good:
         return "U%dV%d|${x" % (u, ver)
+    if kind == "cached-region":
+        return ("U%dV%d|${x}|<%%def name=\"c()\" cached=\"True\" cache_region=\"r1\">C</%%def>${c()}" % (u, ver))
     if kind == "include":
         return "U%dV%d|${x}|<%%include file=\"inc%d.html\"/>" % (u, ver, u)
     if kind == "cached":
@@ -151,6 +155,8 @@ class Runner:
         self.world = S.MakoWorld()
         self.world.__enter__()
         self.cache_impl = S.mem_cache_impl()
+        self.region_impl = S.region_cache_impl()
+        self.cache_pred = S.file_lines_predicate("cache.py")
         from mako import exceptions
         from mako.lookup import TemplateLookup
         self.X = exceptions
@@ -209,12 +215,15 @@ class Runner:
         dirs = [os.path.join(self.base, "d%d" % d) for d in range(sc["ndirs"])]
         lookup = self.TemplateLookup(directories=dirs, filesystem_checks=sc["checks"],
                                      collection_size=-1 if sc["cap"] is None else sc["cap"],
-                                     cache_impl=self.cache_impl)
+                                     cache_impl=self.region_impl if sc["kind"] == "cached-region" else self.cache_impl)
         nthreads = len(sc["progs"])
         ptid = nthreads if sc["prologue"] else None
         if ptid is not None:
             strategy = S.SoloFirst(ptid, strategy)
-        sch = S.Scheduler(strategy, wall_limit=wall, trace_lines=self.pred if line_level else None,
+        pred = None
+        if line_level:
+            pred = self.cache_pred if line_level == "cache" else self.pred
+        sch = S.Scheduler(strategy, wall_limit=wall, trace_lines=pred,
                           max_steps=2_000_000 if line_level else 5000)
         world.instrument(lookup, sch)
         coll = lookup._collection
@@ -745,6 +754,40 @@ def pct_stream(ctx, runner, scs, nruns, deadline, seen_sites):
     return done
 
 
+def cache_lines_stream(ctx, runner, seen_sites):
+    """first cached calls of a def that carries its own cache arguments, on a back end that depends on them, with a
+    scheduling point at every executed line of mako/cache.py (plus the model's points): one thread is stopped after
+    k steps, for EVERY k, the other runs to completion, then the first finishes - both ways round.  Oracle only
+    (`Cache._def_regions[defname]` is the memo cell: a half-filled value visible to the other thread loses the def's
+    arguments)"""
+    sc = dict(scn("cache-region-first-use", [["g0", "r11.1"], ["g0", "r22.1"]], kind="cached-region",
+                  prologue=["g0"]), model=False)
+    st = ctx.stream("oracle.cache-lines", "oracle", exhaustive=True)
+    for first, second in ((0, 1), (1, 0)):
+        o = runner.run(sc, S.StopLine(first, 10 ** 9, second), line_level="cache")
+        n = sum(1 for t, _ in o.trace if t == first)
+        ctx.branch("cache-lines:steps-of-first-thread:%d" % n)
+        for k in range(0, n + 1):
+            o = runner.run(sc, S.StopLine(first, k, second), line_level="cache")
+            st["cases"] += 1
+            if 0 < k < n:
+                ctx.nontriv(("cache-lines", first, k))
+            for r in o.renders:
+                ctx.branch("cache-lines:render:" + r["out"][0])
+            for site, detail in oracle(ctx, sc, o, "oracle.cache-lines"):
+                ctx.branch("oracle-site:" + site)
+                if ("cache-lines", site) in seen_sites:
+                    continue
+                seen_sites.add(("cache-lines", site))
+                case = case_of(sc, o)
+                case["line_level"] = "cache"
+                case["stopped_thread"] = first
+                case["stop_after_steps"] = k
+                stopped = [l for t, l in o.trace if t == first][:k]
+                ctx.violation(site, case, detail + " (thread %d stopped after %d steps, %d of them lines of mako/cache.py)"
+                              % (first, k, sum(1 for l in stopped if l == "l")), "oracle.cache-lines")
+
+
 def corpus_stream(ctx, runner, seen_sites):
     """minimised past failing schedules, replayed first (implementation oracle + model on the same schedule)"""
     import glob
@@ -774,6 +817,7 @@ def run(ctx):
     seen_sites = set()
     try:
         corpus_stream(ctx, runner, seen_sites)
+        cache_lines_stream(ctx, runner, seen_sites)
         scs = scenarios(ctx.tier) + include_scenarios(ctx.tier)
         t_end = time.time() + (30 if ctx.quick else 330)
         total = 0
@@ -803,7 +847,7 @@ def replay(ctx, data):
     sc = case["sc"]
     runner = Runner(ctx)
     try:
-        o = runner.run(sc, S.Follow(case["schedule"]), line_level=bool(case.get("line_level")), wall=60.0)
+        o = runner.run(sc, S.Follow(case["schedule"]), line_level=case.get("line_level") or False, wall=60.0)
         bad = oracle(ctx, sc, o, "replay")
         for site, detail in bad:
             print("replay: %s: %s" % (site, detail))
